@@ -117,10 +117,10 @@ def class_member_char(r, t):
         forms.append("\\]")
     if r in SIMPLE_ESC:
         forms.append("\\" + SIMPLE_ESC[r])
-    if r < 128 and r != 45:          # an escaped dash is avoided: see candidate finding F18 in DESIGN.md
+    if r < 128:                      # also the dash: an ESCAPED dash is a character (finding F18, repaired)
         forms.append("\\x%02x" % r)
         forms.append("\\%03o" % r)
-    if r <= 0xFFFF and r != 45:
+    if r <= 0xFFFF:
         forms.append("\\u%04x" % r)
     if not forms:
         forms.append("\\U%08x" % r)
@@ -329,7 +329,7 @@ def rand_expr(rng, d, names):
         for _ in range(rng.choice([0, 1, 2, 3])):
             c = rng.random()
             if c < 0.5:
-                ms.append(("c", rng.choice([x for x in ALPHA if x != 45])))
+                ms.append(("c", rng.choice(ALPHA)))
             elif c < 0.75:
                 a, b = sorted([rng.choice([97, 98, 65, 90, 48, 0xE9]), rng.choice([99, 122, 90, 57, 0x20AC])])
                 ms.append(("r", a, b))
